@@ -714,6 +714,70 @@ Proof.
   - exact HA.
 Qed.
 
+(** ** the callee goes away *)
+Lemma stop_now_spec (s : sys) :
+  loop (stop_now s) = LDone ROk /\ queue (stop_now s) = [] /\
+  flav (stop_now s) = flav s /\ reperr (stop_now s) = reperr s /\ clients (stop_now s) = clients s /\
+  wire (stop_now s) = wire s /\ target (stop_now s) = target s /\ lst (stop_now s) = lst s /\
+  tasks (stop_now s) = tasks s /\ sends (stop_now s) = sends s /\ errq (stop_now s) = errq s /\
+  rd (stop_now s) = rd s /\ wr (stop_now s) = wr s /\ trace (stop_now s) = trace s /\
+  rel_calls slot_killed s (stop_now s).
+Proof.
+  unfold stop_now. destruct (drop_queue_spec (queue s) s) as [Hr Hk]. unfold rest_eq in Hr. prj.
+  repeat split; try tauto; intros j; exact (Hk j).
+Qed.
+
+Lemma stop_now_invA (s : sys) hs : invA s [] hs -> invA (stop_now s) [] hs.
+Proof.
+  intros HA. destruct (stop_now_spec s) as (_ & Eq & _ & _ & _ & Ew & _ & _ & _ & _ & _ & _ & _ & Et & Hk).
+  eapply invA_shrink; [exact HA|exact Et|apply killed_evolves, Hk| | |tauto].
+  - intros q. unfold reqs_of. rewrite Ew, Eq. cbn [qreqs flat_map app]. rewrite !in_app_iff. tauto.
+  - intros i. unfold cells_of. rewrite Ew, Eq. cbn [qreqs flat_map map]. rewrite !cnt_app. cbn [cnt]. lia.
+Qed.
+
+Lemma abandon_invA (s : sys) ws H1 h H2 : invA s ws (H1 ++ h :: H2) -> invA (abandon s h) ws (H1 ++ H2).
+Proof.
+  intros HA. unfold abandon. set (i := q_cell (h_req h)).
+  assert (Hreq : req_ok s (h_req h)).
+  { apply (a_reqs _ _ _ HA). unfold reqs_of. rewrite !in_app_iff. right. right. right.
+    apply in_map. apply in_or_app. right. now left. }
+  assert (Hex : get_call s i <> None). { destruct Hreq as (cr & E & _). fold i in E. congruence. }
+  apply invA_ev.
+  2:{ destruct (h_ph h); exact I. }
+  2:{ intros j Hj. assert (j = i) by (destruct (h_ph h); cbn in Hj; congruence). subst j.
+      destruct (h_lk h); prj; unfold get_call in *; prj; rewrite nth_error_upd, Nat.eqb_refl;
+      destruct (nth_error (calls s) (N.to_nat i)); cbn; congruence. }
+  eapply invA_shrink; [exact HA| | | | |].
+  - destruct (h_lk h); reflexivity.
+  - intros j. pose proof (evolves_set_slot_dead s i j) as H. destruct (h_lk h); exact H.
+  - intros q. destruct (h_lk h); lists; tauto.
+  - intros j. destruct (h_lk h); lists; lia.
+  - intros h0 r. rewrite !in_app_iff. cbn [In]. tauto.
+Qed.
+
+Lemma abandon_fields (s : sys) h :
+  loop (abandon s h) = loop s /\ tasks (abandon s h) = tasks s /\ queue (abandon s h) = queue s /\ wire (abandon s h) = wire s.
+Proof. unfold abandon. destruct (h_lk h); prj; auto. Qed.
+
+Lemma stop_InvA (s : sys) hard : InvA s -> InvA (step s (AStop hard)).
+Proof.
+  unfold InvA, handlers. intros HA. cbn [Server.step].
+  assert (Hst : forall X : sys, invA X [] (tasks X) ->
+            invA (stop_now X) (loop_waits (loop (stop_now X))) (loop_hs (loop (stop_now X)) ++ tasks (stop_now X))).
+  { intros X HX. destruct (stop_now_spec X) as (El & _ & _ & _ & _ & _ & _ & _ & Et & _).
+    rewrite El, Et. cbn [loop_waits loop_hs app]. apply stop_now_invA, HX. }
+  destruct (loop s) as [|q m|h| |r] eqn:El; cbn [loop_waits loop_hs app] in HA.
+  - apply Hst. exact HA.
+  - destruct hard; [|rewrite El; exact HA]. apply Hst. prj.
+    eapply invA_shrink; [exact HA|reflexivity|apply evolves_set_slot_dead| | |tauto].
+    + intros q0. lists. tauto.
+    + intros j. lists. lia.
+  - destruct hard; [|rewrite El; exact HA]. apply Hst.
+    destruct (abandon_fields s h) as (_ & Et & _). rewrite Et. apply (abandon_invA s [] [] h (tasks s)). exact HA.
+  - destruct hard; [|rewrite El; exact HA]. apply Hst. exact HA.
+  - rewrite El. exact HA.
+Qed.
+
 Theorem step_invA (s : sys) a : InvA s -> InvA (step s a).
 Proof.
   unfold InvA. intros HA. destruct a; cbn [Server.step].
@@ -872,6 +936,7 @@ Proof.
   - (* ASendDone *)
     destruct (nth_error (sends s) (N.to_nat k)); [|exact HA].
     eapply invA_same; [..|exact HA]; reflexivity.
+  - (* AStop *) apply (stop_InvA s hard). exact HA.
 Qed.
 
 
@@ -1341,6 +1406,75 @@ Proof.
     eapply invB_eq; [..|exact H1]; reflexivity.
 Qed.
 
+(** ** the callee goes away *)
+(** removing [h] from the list of live handlers, releasing its guard *)
+Lemma invB_remove s0 (s X : sys) H1 h H2 :
+  invB s0 s (H1 ++ h :: H2) ->
+  trace X = trace s -> lst X = lst s -> target X = target s -> flav X = flav s -> rd X = rd s -> wr X = wr s ->
+  invB s0 (release (h_lk h) X) (H1 ++ H2).
+Proof.
+  intros HB Et El Etg Ef Erd Ewr.
+  assert (Hin : In h (H1 ++ h :: H2)) by (apply in_or_app; right; now left).
+  destruct (b_lk _ _ _ HB h Hin) as [Hsup Hlk].
+  destruct HB as [B1 B2 B3 B4 B5 B6 B7 B8].
+  assert (Hsub : forall x, In x (H1 ++ H2) -> In x (H1 ++ h :: H2)).
+  { intros x. rewrite !in_app_iff. cbn [In]. tauto. }
+  rewrite nreads_app, nwrites_app, nreads_cons, nwrites_cons in *. rewrite app_length in B8. cbn [length] in B8.
+  assert (Hf' : flav (release (h_lk h) X) = flav s) by (destruct (h_lk h); prj; exact Ef).
+  assert (Hl' : lst (release (h_lk h) X) = lst s) by (destruct (h_lk h); prj; exact El).
+  assert (Ht' : trace (release (h_lk h) X) = trace s) by (destruct (h_lk h); prj; exact Et).
+  assert (Hg' : target (release (h_lk h) X) = target s) by (destruct (h_lk h); prj; exact Etg).
+  split; rewrite ?Hf', ?Hl', ?Ht', ?Hg'; auto.
+  - eauto.
+  - rewrite nreads_app, nwrites_app. intros Hf. destruct (B6 Hf) as [Hr Hw]. unfold is_read, is_write in *.
+    destruct (h_lk h); prj; rewrite ?Erd, ?Ewr; cbn in *.
+    + split; [exact Hr|exact Hw].
+    + split; [lia|exact Hw].
+    + split; [exact Hr|]. split; [discriminate|]. lia.
+  - rewrite nreads_app, nwrites_app. destruct (is_read h), (is_write h); lia.
+  - intros Hf. rewrite app_length. specialize (B8 Hf). lia.
+Qed.
+
+Lemma abandon_invB s0 (s : sys) H1 h H2 : invB s0 s (H1 ++ h :: H2) -> invB s0 (abandon s h) (H1 ++ H2).
+Proof.
+  intros HB. unfold abandon. set (i := q_cell (h_req h)).
+  eapply invB_plain_ev with (s := release (h_lk h) (set_slot i SDead s)) (e := match h_ph h with PNew => ESkip i | _ => ECancel i end).
+  - eapply invB_remove; [exact HB|reflexivity..].
+  - destruct (h_ph h); exact I.
+  - destruct (h_lk h); reflexivity.
+  - destruct (h_lk h); reflexivity.
+  - destruct (h_lk h); reflexivity.
+  - destruct (h_lk h); reflexivity.
+  - destruct (h_lk h); reflexivity.
+  - destruct (h_lk h); reflexivity.
+Qed.
+
+Lemma stop_now_InvB s0 (X : sys) :
+  invB s0 X (tasks X) -> (shared (flav X) = false -> tasks X = []) -> InvB s0 (stop_now X).
+Proof.
+  intros HB Hns.
+  destruct (stop_now_spec X) as (El & _ & Ef & _ & _ & _ & Etg & Els & Et & _ & _ & Erd & Ewr & Etr & _).
+  unfold InvB, handlers. rewrite El, Et, Ef. cbn [loop_hs app].
+  split; [|split; [exact Hns|intros; discriminate]].
+  eapply invB_eq; [..|exact HB]; assumption.
+Qed.
+
+Lemma stop_InvB s0 (s : sys) hard : InvB s0 s -> InvB s0 (step s (AStop hard)).
+Proof.
+  intros HI. pose proof HI as (HB & Hns & Hw). unfold handlers in HB. cbn [Server.step].
+  destruct (loop s) as [|q m|h| |r] eqn:El; cbn [loop_hs app] in HB.
+  - apply stop_now_InvB; assumption.
+  - destruct hard; [|exact HI]. apply stop_now_InvB; [|exact Hns].
+    eapply invB_eq; [..|exact HB]; reflexivity.
+  - destruct hard; [|exact HI].
+    destruct (abandon_fields s h) as (_ & Et & _).
+    assert (Ef : flav (abandon s h) = flav s) by (unfold abandon; destruct (h_lk h); reflexivity).
+    apply stop_now_InvB; rewrite ?Et, ?Ef; [|exact Hns].
+    apply (abandon_invB s0 s [] h (tasks s)). exact HB.
+  - destruct hard; [|exact HI]. apply stop_now_InvB; assumption.
+  - exact HI.
+Qed.
+
 Theorem step_InvB s0 (s : sys) a : InvB s0 s -> InvB s0 (step s a).
 Proof.
   intros HI. destruct a; cbn [Server.step].
@@ -1376,6 +1510,7 @@ Proof.
   - apply task_step_InvB, HI.
   - destruct (nth_error (sends s) (N.to_nat k)); [|exact HI].
     eapply InvB_frame; [exact HI|left; reflexivity|reflexivity..].
+  - apply stop_InvB. exact HI.
 Qed.
 
 Lemma init_InvB f sp p re ncl s0 : InvB s0 (init f sp p re ncl s0).
@@ -1743,11 +1878,18 @@ Proof.
   - destruct (nth_error (sends s) (N.to_nat k)) as [b|] eqn:Ek; auto. prj.
     assert (b = false) as -> by (apply Hs; eapply nth_error_In; eauto).
     split; [split; [exact He|]|reflexivity]. intros b Hb. apply Hs. eapply in_del; eauto.
+  - (* AStop *)
+    assert (Hst : forall X : sys, errq X = errq s -> sends X = sends s -> reperr X = reperr s ->
+              (errq (stop_now X) = 0 /\ (forall b, In b (sends (stop_now X)) -> b = false)) /\ reperr (stop_now X) = reperr s).
+    { intros X E1 E2 E3. destruct (stop_now_spec X) as (_ & _ & _ & Er & _ & _ & _ & _ & _ & Es & Ee & _).
+      rewrite Ee, Es, Er, E1, E2, E3. auto. }
+    destruct (loop s) as [|q m|h| |r]; try destruct hard; auto; apply Hst; try reflexivity;
+      unfold abandon; destruct (h_lk h); reflexivity.
 Qed.
 
-Lemma step_loop_other (s : sys) a : a <> ALoop -> loop (step s a) = loop s.
+Lemma step_loop_other (s : sys) a : a <> ALoop -> (forall hard, a <> AStop hard) -> loop (step s a) = loop s.
 Proof.
-  intros Ha. destruct a; cbn [Server.step]; try contradiction.
+  intros Ha Hb. destruct a; cbn [Server.step]; try contradiction; try (exfalso; eapply Hb; reflexivity).
   - destruct (client_exists s cl); reflexivity.
   - destruct (get_call s i) as [cr|]; [|reflexivity]. destruct (cr_st cr); try reflexivity.
     destruct (cut s || qclosed s || negb (client_live s (cr_client cr))); [reflexivity|]. destruct (c_reqbig (cr_call cr)); reflexivity.
@@ -1806,10 +1948,17 @@ Proof.
     assert (Hok' : (forall c r, too_big c r = false) \/ reperr s = false) by (rewrite Hre; exact Hok).
     destruct (step_no_reply_errors s a Hok' HN) as [HN' Hre'].
     apply IH; [congruence|exact HN'|].
-    intros E. assert (Hd : {a = ALoop} + {a <> ALoop}) by (destruct a; (left; reflexivity) || (right; discriminate)).
-    destruct Hd as [->|Hd].
+    intros E. assert (Hd : {a = ALoop} + {exists hard, a = AStop hard} + {a <> ALoop /\ forall hard, a <> AStop hard}).
+    { destruct a; try (right; split; [discriminate|intros; discriminate]); [left; left; reflexivity|left; right; eauto]. }
+    destruct Hd as [[->|(hard & ->)]|[Hd1 Hd2]].
     - cbn [Server.step] in E. destruct (loop_step_done_cause s E) as [H|H]; [exact (Hl H)|]. destruct HN as [He _]. exact (H He).
-    - rewrite (step_loop_other s a Hd) in E. exact (Hl E). }
+    - (* the callee goes away: [serve()] does not return at all *)
+      cbn [Server.step] in E.
+      assert (Hst : forall X : sys, loop (stop_now X) <> LDone RErrReply).
+      { intros X. destruct (stop_now_spec X) as (El & _). rewrite El. discriminate. }
+      destruct (loop s) as [|q m|h| |r] eqn:El; try destruct hard; try (exact (Hst _ E)); rewrite ?El in E;
+        try discriminate; exact (Hl E).
+    - rewrite (step_loop_other s a Hd1 Hd2) in E. exact (Hl E). }
   apply H; [reflexivity|split; [reflexivity|intros b []]|discriminate].
 Qed.
 
@@ -1944,6 +2093,26 @@ Proof.
     destruct (poll_h s h) as [s1 oh] eqn:Ep. destruct (poll_h_calls_kept _ _ _ _ Ep) as [P1 P2].
     destruct oh; (apply Hk; [eapply calls_kept_trans; [exact P1|apply calls_kept_eq; reflexivity]|exact P2]).
   - destruct (nth_error (sends s) (N.to_nat k)); (apply Hk; [apply calls_kept_eq|]; reflexivity).
+  - (* AStop *)
+    assert (Hst : forall X : sys, calls_kept s X -> clients X = clients s ->
+              calls_kept s (stop_now X) /\ clients (stop_now X) = clients s).
+    { intros X H1 H2. destruct (stop_now_spec X) as (_ & _ & _ & _ & Ec & _ & _ & _ & _ & _ & _ & _ & _ & _ & Hkk).
+      split; [|congruence]. eapply calls_kept_trans; [exact H1|apply calls_kept_killed, Hkk]. }
+    assert (Hst' : forall X : sys, calls_kept s X -> clients X = clients s ->
+              (forall i cr', get_call (stop_now X) i = Some cr' ->
+                 (exists cr, get_call s i = Some cr /\ cr_call cr' = cr_call cr) \/ exists cl, AStop hard = AInvoke cl (cr_call cr')) /\
+              (forall cl, nth_error (clients (stop_now X)) cl = Some ClPoisoned ->
+                 nth_error (clients s) cl = Some ClPoisoned \/ exists i cr, get_call s i = Some cr /\ c_reqbig (cr_call cr) = true)).
+    { intros X H1 H2. destruct (Hst X H1 H2) as [A B]. apply Hk; assumption. }
+    destruct (loop s) as [|q m|h| |r].
+    + apply Hst'; [apply calls_kept_refl|reflexivity].
+    + destruct hard; [|apply Hk; [apply calls_kept_refl|reflexivity]]. apply Hst'; [|reflexivity].
+      eapply Hup with (f := fun c => mkC _ _ _ _ _); reflexivity.
+    + destruct hard; [|apply Hk; [apply calls_kept_refl|reflexivity]]. apply Hst'.
+      * eapply Hup with (f := fun c => mkC _ _ _ _ _); [reflexivity|]. unfold abandon. destruct (h_lk h); reflexivity.
+      * unfold abandon. destruct (h_lk h); reflexivity.
+    + destruct hard; [|apply Hk; [apply calls_kept_refl|reflexivity]]. apply Hst'; [apply calls_kept_refl|reflexivity].
+    + apply Hk; [apply calls_kept_refl|reflexivity].
 Qed.
 
 Definition no_big_requests (acts : list (action Arg)) : Prop :=
